@@ -3,8 +3,7 @@
  "property": ["C02", "C03"],
  "entry": "h_stream",
  "enforce": ["crypto_aesctr_stream"],
- "replace": ["crypto_aesctr_stream_cipherblock_use", "crypto_aesctr_stream_cipherblock_generate",
-             "crypto_aesctr_stream_pre_wholeblock", "crypto_aesctr_stream_post_wholeblock"],
+ "replace": ["crypto_aesctr_stream_cipherblock_use", "crypto_aesctr_stream_cipherblock_generate"],
  "annotate": ["crypto/crypto_aesctr.c", "crypto/crypto_aesctr_shared.c"],
  "defines": ["VERIF_HALLOC"],
  "timeout": 300,
